@@ -32,7 +32,7 @@ SPEC("pane.field", "FieldSpec.make_field",
      ensures=[
          # output name: explicit out_name, else the field's rename, else the class output style applied to the Python name
          (lambda self, name, in_rename, out_rename, result: result.out_name == ite(
-             not is_none(self.out_name), self.out_name, ite(not is_none(self.rename), self.rename, std_out_name(name, out_rename))), ["C15", "C05"], "out-name"),
+             not is_none(self.out_name), self.out_name, ite(not is_none(self.rename), self.rename, std_out_name(name, out_rename))), ["C15", "C05", "C20"], "out-name"),
          # input names
          (lambda self, name, in_rename, out_rename, result: implies(not is_none(self.rename),
                                                                     slen(as_seq(result.in_names)) == 1 and sat(as_seq(result.in_names), 0) == self.rename),
